@@ -195,7 +195,8 @@ class CliMatrix(ch.DirectUnit):
         bad = "cat(tom) :- 1.\n"
         broken = "foo(a) :- .\n"
         out = []
-        for srcs in ([good[0]], [good[1]], [good[0], good[1]], [good[1], good[0]], [good[0], bad], [broken, good[0]]):
+        for srcs in ([good[0]], [good[1]], [good[0], good[1]], [good[1], good[0]], [good[0], bad], [broken, good[0]], [good[0], good[0]],
+                     [good[0], broken, good[1]]):
             for stdin_pos in (None, 0, len(srcs) - 1):
                 for to_file in (False, True):
                     out.append((srcs, stdin_pos, to_file))
@@ -218,7 +219,7 @@ class CliMatrix(ch.DirectUnit):
                 args.append('-')
                 stdin_text = s
             else:
-                path = os.path.join(tmp, 'src%d.prolog' % i)
+                path = os.path.join(tmp, 'src%d.prolog' % srcs.index(s))      # identical texts = the same file named again
                 with open(path, 'w', encoding='utf8') as f:
                     f.write(s)
                 args.append(path)
